@@ -69,7 +69,13 @@ impl PatternSet {
 
                 if s_idx < input.len() {
                     let c = input[s_idx];
-                    if p == c || p == b'?' {
+                    if p == b'?' {
+                        // any single character, which may be several bytes long
+                        p_idx += 1;
+                        s_idx += utf8_char_len(c);
+                        continue;
+                    }
+                    if p == c {
                         p_idx += 1;
                         s_idx += 1;
                         continue;
@@ -83,8 +89,10 @@ impl PatternSet {
                 return true;
             }
 
-            if s_back + 1 < input.len() {
-                s_back += 1;
+            // let the last `*` take one more character
+            let step = input.get(s_back).map_or(1, |&b| utf8_char_len(b));
+            if s_back + step < input.len() {
+                s_back += step;
                 p_idx = p_back;
                 s_idx = s_back;
                 continue;
@@ -92,6 +100,16 @@ impl PatternSet {
 
             return false;
         }
+    }
+}
+
+/// Length in bytes of the UTF-8 encoded character that starts with `first_byte`
+const fn utf8_char_len(first_byte: u8) -> usize {
+    match first_byte {
+        0xC0..=0xDF => 2,
+        0xE0..=0xEF => 3,
+        0xF0..=0xFF => 4,
+        _ => 1,
     }
 }
 
